@@ -247,9 +247,12 @@ PROPS = {
         "level_text": "Theorem err_never_lost (Props/C05.lean): in the transition system of ReadChunks (two producer goroutines, consumer, unbuffered and 2-slot channels, catcher), "
                       "for every input and every schedule without cancellation, once Next has returned false on a failing input Err is non-nil; proved from a 15-clause inductive "
                       "invariant. err_lost_before_fix: with the pinned commit's order (close, then add) a 5-step schedule loses the error (decide). errors_retained: the catcher "
-                      "only grows. layer_above: the close-after-add shape composes to the document/matrix/series iterators.",
-        "level_note": "Mutex-protected catcher operations and channel operations are atomic steps of the model; the Go scheduler and memory model are trusted. The worker layers are "
-                      "covered by the composition lemma and by the forced/perturbed schedules on all five entry points, not by their own transition system.",
+                      "only grows. cancel_before_registration_loses_error: why the theorem speaks of runs without cancellation. The layers above (document, matrix, series iterators): "
+                      "upper_layer_err_never_lost - on every schedule of a layer's worker and its consumer, once Next has returned false the layer's Err is what the layer below "
+                      "reported (so non-nil stays non-nil up the stack); upper_layer_err_lost_if_closed_first for the other order; layer_above: the same composition as a lemma.",
+        "level_note": "Mutex-protected catcher operations and channel operations are atomic steps of the model; the Go scheduler and memory model are trusted. The upper-layer system "
+                      "takes 'the layer below has ended and its Err() is stable' as given (that is the theorem of the layer below; for the chunk iterator a late second error can "
+                      "still arrive - see DESIGN.md section 6 - which changes which error is reported, not whether one is).",
         "assumptions": ["no cancellation (cancelling is not a decoding failure)"],
     },
     "C06": {
